@@ -39,6 +39,18 @@ CLAIMED = {
  'C07': dict(cat='proof', tech='Coq proof (progress of the job pass over arbitrary session tables, release, containment) + malformed-stream exploration + correspondence',
    text='the transport pass over ANY receive/send tables at ANY instant hands on a wake-up time strictly in the future or raises (no busy spin on protocol state), sessions are released at their deadline, the listener contains every exception; protocol-aware malformed frame sequences of length 1..60 with gaps up to 3.1 s on both real layers while the stack itself sends, followed by timer, table and follow-up-transfer checks; J1939-21 runs (incl. exception paths) replayed on the model',
    note='"never raises in the job pass" (T07.2) is not proved; the no-spin theorem treats a raise as an exit; J1939-22 by exploration/oracle'),
+ 'C02': dict(cat='proof', tech='Coq proof (segmentation, capacity, allocation freshness, pool invariant steps, inbound neutrality) on Model22 + correspondence by replay + exactly-once oracle',
+   text='60-byte segmentation loses nothing for every payload; legal FD lengths (finite table generated from /repo); send_pgn refused iff the pool of its kind is exhausted and then without any effect; a new session takes a free number and a FRESH key (never overwrites a session in flight) and keeps the pool invariant; traffic in the other direction (any frame) leaves sessions and pools untouched; 2-3 real FD stacks with up to 8+4 concurrent sessions and over-capacity bursts checked by an oracle; every handler log replayed on Model22',
+   note='closed-loop delivery of FD transfers is not proved in Coq (role theorems exist for J1939-21 only): covered by correspondence + oracle (testing)'),
+ 'C08': dict(cat='proof', tech='Coq proof by reflection on shared-access skeletons extracted from /repo + exhaustive single pre-emption of the real job thread',
+   text='a checker over the tree of session-table accesses of each job-pass loop is proved sound against a semantics in which the environment may delete/insert the key before every access as far as the extracted rely allows; the skeletons and rely are regenerated from /repo on every run and accepted by vm_compute; the real job thread is parked at every executed line of every transfer shape on both layers',
+   note='partial: outcome-level independence is by exploration (exhaustive single pre-emption), serialisability (T08.2) not proved; below-bytecode pre-emption not exhibited'),
+ 'C10': dict(cat='proof', tech='Coq proof (inbound neutrality for every frame, allocation and release preserve the pool invariant, refusal iff exhausted; J1939-21 pair rule) + history exploration + correspondence',
+   text='notify of ANY frame leaves the originator sessions (number, kind, key) and both pools unchanged; allocation takes a fresh key and keeps the invariant; every release (delete + return to the pool of the session kind) keeps it; refusal iff the pool is exhausted; J1939-21: refused iff the pair is busy, a waiting session expires; histories of 1..40 transfers with losses, aborts, silence, then the full concurrency must be accepted and delivered on real stacks',
+   note='the induction over a whole job pass (composition of the proved steps) is not mechanised; the steps are'),
+ 'C11': dict(cat='proof', tech='Coq proof (unpack(pack)=id for every group list and padding, frame shape, fill accounting, deadline) on generated header expressions + correspondence + oracle with an independent decoder',
+   text='for every list of groups (1..60 bytes, 18-bit PGN) and every padding length the receive loop returns exactly the groups in order (header bit lemma by exhaustive sweep over 2^18 PGNs lifted with forallb_forall); emitted frames have a legal FD length <= 64 with skippable padding; fill accounting invariant incl. overflow; a buffer is emitted at the first pass at/after its deadline and submission wakes the job thread; real sender/receivers with FEFF/FBFF, time limits, timer-callback submission',
+   note='time bound relative to jitter J; FBFF reception is not supported by the stack (decoded by the oracle)'),
 }
 props = [json.loads(l) for l in open(os.path.join(ROOT, 'properties.jsonl'))]
 old = {}
